@@ -10,7 +10,7 @@ trap cleanup EXIT INT TERM
 case "$M" in revert:*) ;; /*) ;; *) M="$(pwd)/$M" ;; esac
 case "$M" in
   revert:*) git -C "$WT" revert --no-commit "${M#revert:}" >/dev/null 2>&1 || { echo "cannot revert $M"; exit 2; } ;;
-  *) git -C "$WT" apply "$M" || { echo "cannot apply $M"; exit 2; } ;;
+  *) git -C "$WT" apply "$M" 2>/dev/null || { git -C "$WT" apply --3way "$M" >/dev/null 2>&1 && ! git -C "$WT" diff --name-only --diff-filter=U | grep -q . ; } || { echo "cannot apply $M (written against an older /repo HEAD: see repo_head in its meta.json)"; exit 2; } ;;
 esac
 OUT="$(mktemp /tmp/vf-mut-out-XXXXXX)"
 cd "$(dirname "$0")/.." || exit 2
